@@ -328,7 +328,7 @@ pub fn gen_program(r: &mut Rng, id: u64, thorough: bool) -> Program {
     // the sweeps need trees of height >= 2 / 3 at small pages: bounds and consumption counts are then drawn around the leaf edges
     let base = if shape.ends_with("-sweep") { 512 } else { base };
     let pool_n = match (vt, shape) {
-        (_, "extract-sweep") | (_, "range-sweep") => 60 + r.below(if thorough { 400 } else { 180 }) as usize,
+        (_, "extract-sweep") | (_, "range-sweep") => 60 + r.below(if thorough { 240 } else { 180 }) as usize,
         (VType::U64, _) => 40 + r.below(if thorough { 600 } else { 260 }) as usize,
         (_, "random") => 6 + r.below(50) as usize,
         _ => 20 + r.below(if thorough { 300 } else { 120 }) as usize,
@@ -397,7 +397,7 @@ pub fn gen_program(r: &mut Rng, id: u64, thorough: bool) -> Program {
                     else { r.below(n as u64) as usize };
             match r.below(5) { 0 => BoundS::U, 1 | 2 => BoundS::I(sp[i].clone()), _ => BoundS::E(sp[i].clone()) }
         };
-        let nsweeps = if thorough { 60 } else { 28 };
+        let nsweeps = if thorough { 36 } else { 28 };
         let kmax = 3 + r.below(40) as usize;
         let from_front = r.chance(1, 2);
         let (lo, hi) = (pick_bound(r, true), pick_bound(r, false));
@@ -421,8 +421,8 @@ pub fn gen_program(r: &mut Rng, id: u64, thorough: bool) -> Program {
                 ops.push(Op::Range(lo.clone(), hi.clone(), script));
                 ops.push(Op::Range(pick_bound(r, true), pick_bound(r, false), if r.chance(1, 2) { "D".into() } else { "bbbfD".into() }));
             }
+            // (the contents after the transaction are compared by the dump that follows every commit / abort)
             ops.push(Op::Len);
-            ops.push(Op::Range(BoundS::U, BoundS::U, if r.chance(1, 2) { "d".into() } else { "D".into() }));
             txns.push(Txn { ops, end: if r.chance(1, 6) { End::Commit } else { End::Abort }, reopen: false });
         }
     }
